@@ -71,6 +71,8 @@ def world():
     for b in ('bad_options', 'opt_patch', 'opt_timeline', 'feat_timeline', 'mft_timeline', 'synthetic_error', 'has_mup'):
         w[b] = z3.Bool(b)
     w['mup_num'], w['mup_den'], w['publish_s'] = z3.Int('mup_num'), z3.Int('mup_den'), z3.Int('publish_s')
+    w['ctx_publish_us'], w['ctx_now_us'] = z3.Int('ctx_publish_us'), z3.Int('ctx_now_us')
+    w['context_untouched'] = context_untouched
     w['feat_patch'], w['mode_live_allowed'] = z3.Bool('feat_patch'), z3.Bool('mode_live_allowed')
     w['micros'] = lambda dt: zint(dt.us)
     w['max_age_is'] = max_age_is
@@ -381,6 +383,21 @@ class Modes:
         raise Unsupported('mode lookup')
 
 
+from contracts.errors_fields import CONTEXT_FIELDS
+
+
+def context_untouched(mpd):
+    if not isinstance(mpd, Obj) or mpd.cls != 'ManifestContext':
+        return z3.BoolVal(False)
+    for name in CONTEXT_FIELDS:
+        v = mpd.f.get(name)
+        if not isinstance(v, Opaque) or v.what != 'ctx.' + name:
+            return z3.BoolVal(False)
+    if not isinstance(mpd.f.get('publishTime'), DT) or not isinstance(mpd.f.get('now'), DT):
+        return z3.BoolVal(False)
+    return z3.And(zint(mpd.f['publishTime'].us) == z3.Int('ctx_publish_us'), zint(mpd.f['now'].us) == z3.Int('ctx_now_us'))
+
+
 def serve_patch():
     def env(w):
         return {'self': Obj('ServePatch', {}), 'stream': Opaque('stream'), 'manifest': Opaque('name'), 'publish': w['publish_s'],
@@ -409,6 +426,13 @@ def serve_patch():
         if isinstance(v, tuple):
             return Obj('Response', {'status': v[1], 'kind': 'patch', 'body': v[0], 'headers': v[2]})
         return Obj('Response', {'status': a[1], 'kind': 'error'})
+    def manifest_context(eng, a, kw):
+        f = dict(kw)
+        for name in CONTEXT_FIELDS:
+            f[name] = Opaque('ctx.' + name)
+        f['publishTime'] = DT(eng.world['ctx_publish_us'])
+        f['now'] = DT(eng.world['ctx_now_us'])
+        return Obj('ManifestContext', f)
     refused = '(not feat_patch or not feat_timeline or not mode_live_allowed or bad_options)'
     return Contract(
         key=f'{MFR}:ServePatch.get', props=['C09', 'C16'], env=env,
@@ -418,12 +442,15 @@ def serve_patch():
                 'attr:flask.request.args': lambda eng: Opaque('args'), 'html.escape': lambda eng, e, a, kw: Opaque('esc'),
                 'datetime.datetime.fromtimestamp': lambda eng, e, a, kw: DT(zint(a[0]) * 1000000), 'UTC': lambda eng, e, a, kw: Opaque('utc'),
                 'self.create_context': context,
-                'flask.render_template': lambda eng, e, a, kw: Obj('Rendered', {'options': kw['options'],
+                'flask.render_template': lambda eng, e, a, kw: Obj('Rendered', {'options': kw['options'], 'mpd': kw.get('mpd'),
                                                                               'original_publish_time': kw['original_publish_time']}),
                 'add_allowed_origins': lambda eng, e, a, kw: None, 'flask.make_response': make_response},
-        ctors={'ManifestContext': lambda eng, a, kw: Obj('ManifestContext', dict(kw))},
+        ctors={'ManifestContext': manifest_context},
         ensures=[
             ('refused_400', f'(result.status == 400) if {refused} else True'),
+            # the patch is rendered from the manifest context exactly as ManifestContext built it (the same periods, timing
+            # and patch location the full manifest of this instant is rendered from): nothing is edited in between
+            ('patch_rendered_from_the_untouched_context', f'context_untouched(result.body.mpd) if not {refused} else True'),
             ('patch_document', "(result.status == 200 and result.kind == 'patch' and result.body.options.patch == True and "
                                "result.body.options.segmentTimeline == True and micros(result.body.original_publish_time) == 1000000 * publish_s) "
                                f'if not {refused} else True'),
@@ -432,7 +459,7 @@ def serve_patch():
         canaries=['result.status == 400'],
         witness_terms=lambda w: (lambda ev: dict({k: ev(z3.Bool(k)) for k in (
             'bad_options', 'opt_patch', 'opt_timeline', 'feat_timeline', 'feat_patch', 'mode_live_allowed', 'has_mup')},
-            **{k: ev(z3.Int(k)) for k in ('mup_num', 'mup_den', 'publish_s')})),
+            **{k: ev(z3.Int(k)) for k in ('mup_num', 'mup_den', 'publish_s', 'ctx_publish_us', 'ctx_now_us')})),
     )
 
 
